@@ -210,8 +210,33 @@ def hexs(b):
     return bytes(b).hex() if b else "-"
 
 
+REP_DEF = "Definition rep (x n : Z) : list Z := repeat x (Z.to_nat n).\n"
+
+
+def coq_nums(b, minrun=200):
+    """a Coq list term for a list of numbers; long constant runs become `rep v n` (the preamble must
+    contain REP_DEF): Coq cannot parse list literals of several 10^4 elements"""
+    b = [int(x) for x in b]
+    parts, cur, i, n = [], [], 0, len(b)
+    while i < n:
+        j = i
+        while j < n and b[j] == b[i]:
+            j += 1
+        if j - i >= minrun:
+            if cur:
+                parts.append("[" + ";".join(map(str, cur)) + "]")
+                cur = []
+            parts.append("rep %d %d" % (b[i], j - i))
+        else:
+            cur.extend(b[i:j])
+        i = j
+    if cur or not parts:
+        parts.append("[" + ";".join(map(str, cur)) + "]")
+    return parts[0] if len(parts) == 1 else "(" + " ++ ".join(parts) + ")"
+
+
 def coq_bytes(b):
-    return "[" + ";".join(str(x) for x in b) + "]"
+    return coq_nums(b)
 
 
 def _walk_has_odd_refreq(b, start):
